@@ -253,7 +253,11 @@ impl Run {
         let wall = self.start.elapsed().as_secs_f64();
         let mut cov = self.coverage.clone();
         if self.samples.is_empty() {
-            machinery_failure("no samples recorded: vacuous run");
+            // a run that stopped at its first cases because they violate the property is a verdict
+            match self.violations.first() {
+                Some(v) => self.samples.push(json!({"violating_case": v.case})),
+                None => machinery_failure("no samples recorded: vacuous run"),
+            }
         }
         cov.insert("samples".into(), Value::Array(self.samples.clone()));
         cov.insert("known_finding_hits".into(), json!(known_hits));
